@@ -102,3 +102,6 @@ def run_proofs(ctx):
     from vf.proofs._conformance import find_nulls_drop_rows
 
     find_nulls_drop_rows(ctx, "C06")
+    from vf.proofs import materialize
+
+    materialize.run_proofs(ctx)
